@@ -18,6 +18,11 @@ macro_rules! vcover {
 pub mod src;
 pub mod fields;
 pub mod order;
+pub mod intersect;
+pub mod divide;
+pub mod front;
+pub mod contour;
+pub mod queue;
 
 #[cfg(verif_replay)]
 #[test]
@@ -34,6 +39,15 @@ fn dispatch(name: &str, s: &mut src::ReplaySrc) -> bool {
         "fields_select" => fields::fields_select_body(s),
         "fields_prev_in_result" => fields::fields_prev_in_result_body(s),
         "member_consistency" => fields::member_consistency_body(s),
+        "intersection_in_boxes_f64" => intersect::intersection_in_boxes_body::<f64, _>(s),
+        "intersection_in_boxes_f32" => intersect::intersection_in_boxes_body::<f32, _>(s),
+        "possible_intersection_contract_f64" => divide::possible_intersection_contract_body::<f64, _>(s),
+        "possible_intersection_contract_f32" => divide::possible_intersection_contract_body::<f32, _>(s),
+        "divide_segment_contract_f64" => divide::divide_segment_contract_body::<f64, _>(s),
+        "divide_segment_contract_f32" => divide::divide_segment_contract_body::<f32, _>(s),
+        "trivial_result_f64" => queue::trivial_result_body::<f64, _>(s),
+        "trivial_result_f32" => queue::trivial_result_body::<f32, _>(s),
+        "contour_parent" => contour::contour_parent_body(s),
         "cmp_matches_spec_f64" => order::cmp_matches_spec_body::<f64, _>(s),
         "cmp_matches_spec_f32" => order::cmp_matches_spec_body::<f32, _>(s),
         "compare_segments_matches_spec_f64" => order::compare_segments_matches_spec_body::<f64, _>(s),
